@@ -29,6 +29,9 @@ Fixpoint split_lines (s : bytes) : list bytes * bytes :=
 (* the inverse: every line followed by a newline *)
 Definition unlines (ls : list bytes) : bytes := flat_map (fun l => l ++ [NL]) ls.
 
+(* a string without newline *)
+Definition nonl (l : bytes) : Prop := ~ In NL l.
+
 Section Spec.
 Variable test : bytes -> bool.
 
@@ -96,6 +99,25 @@ Fixpoint bounded_ops (b : nat) (carry : bytes) (ops : list op) : Prop :=
 
 End Spec.
 
+Definition no_flush_all (ops : list op) : Prop := Forall (fun o => o <> OpFlushAll) ops.
+Definition no_flush (ops : list op) : Prop := Forall (fun o => o <> OpFlush) ops.
+
+(* the tester's verdict on the empty string only matters when Flush is used (Flush skips an
+   empty record before testing it, FlushAll tests it) *)
+Definition flush_ok (test : bytes -> bool) (ops : list op) : Prop := test [] = false \/ no_flush ops.
+
+(* a line that is a complete single-line record of at most b bytes *)
+Definition valid_line (test : bytes -> bool) (b : nat) (l : bytes) : Prop :=
+  l <> [] /\ nonl l /\ test l = true /\ length l <= b.
+
+(* dropping the per-operation trace of [run_ops_tr] *)
+Definition forget_trace {A B C} (r : outcome (A * B * C)) : outcome (A * B) :=
+  match r with
+  | Ok (a, b, _) => Ok (a, b)
+  | Err e => Err e
+  | Panic s => Panic s
+  end.
+
 (* the text of a script: everything read, in order *)
 Fixpoint ops_text (ops : list op) : bytes :=
   match ops with
@@ -104,8 +126,7 @@ Fixpoint ops_text (ops : list op) : bytes :=
   | _ :: ops' => ops_text ops'
   end.
 
-Definition no_flush_all (ops : list op) : Prop := Forall (fun o => o <> OpFlushAll) ops.
-Definition no_flush (ops : list op) : Prop := Forall (fun o => o <> OpFlush) ops.
+
 
 (* ---------- the documented shape of a record start line (recordtest.go) ----------
    "<" 1 to 3 decimal digits ">1 " and at least 32 bytes in all *)
